@@ -312,6 +312,10 @@ static int c03_seqbytes(toks_t *t)
     if (jp[i] == 0xFF && jp[i + 1] == 0xDA) { s0 = i + 2 + ((unsigned long)jp[i + 2] << 8 | jp[i + 3]); break; }
     if (jp[i] == 0xFF && jp[i + 1] != 0xFF && jp[i + 1] != 0) i += 2 + ((unsigned long)jp[i + 2] << 8 | jp[i + 3]); else i++;
   }
+  if (!strcmp(t->tok[0], "seqfile")) {
+    for (i = 0; i < n; i++) { h ^= jp[i]; h *= 1099511628211ULL; }
+    printf("R %lu %llu\n", n, h); free(jp); return 1;
+  }
   if (!s0 || n < s0 + 2) { printf("R err nosos\n"); free(jp); return 1; }
   for (i = s0; i < n - 2; i++) { h ^= jp[i]; h *= 1099511628211ULL; }
   printf("R %lu %llu\n", n - 2 - s0, h);
@@ -325,5 +329,6 @@ static int dispatch_c03(toks_t *t)
   if (!strcmp(t->tok[0], "t81") && t->n >= 2) return c03_t81(t);
   if (!strcmp(t->tok[0], "t81c") && t->n >= 3) return c03_t81(t);
   if (!strcmp(t->tok[0], "seqbytes") && t->n >= 8) return c03_seqbytes(t);
+  if (!strcmp(t->tok[0], "seqfile") && t->n >= 8) return c03_seqbytes(t);
   return 0;
 }
